@@ -92,6 +92,10 @@ func runTrace(pd *propDef, s *scenario, trace []string, judge bool) (st mc.Step,
 		errS = "err"
 	}
 	st.Outcome = fmt.Sprintf("%s/%s/%d/%d", strings.Split(rp.ev, ":")[0], errS, len(rp.updates), len(rp.pushed))
+	verifCounters["requests_"+strings.Split(rp.ev, ":")[0]+"_"+errS]++
+	if len(rp.updates)+len(rp.pushed) > 0 {
+		verifCounters["replies_updating_other_containers"]++
+	}
 	if judge {
 		for _, o := range pd.oracles {
 			o(x, v, pre, post, rp)
@@ -158,6 +162,10 @@ func runProp(t *testing.T, pd *propDef) {
 			return st
 		}}
 		states, trans, d := ex.Explore()
+		for k, n := range verifCounters {
+			w.Count(k, n)
+			delete(verifCounters, k)
+		}
 		w.Note("%s: states=%d transitions=%d depth=%d/%d", s.name, states, trans, d, depth)
 	}
 }
@@ -191,3 +199,8 @@ func TestVerifC09(t *testing.T) { runProp(t, propC09) }
 var propC02 = &propDef{id: "C02", oracles: []oracleFn{oracleC02}, scenarios: blScenarios}
 
 func TestVerifC02(t *testing.T) { runProp(t, propC02) }
+
+var propC04 = &propDef{id: "C04", oracles: []oracleFn{oracleC04}, scenarios: c04Scenarios,
+	nontriv: func(x *exec, post *snap) bool { return len(post.MemReqs) >= 2 }}
+
+func TestVerifC04(t *testing.T) { runProp(t, propC04) }
